@@ -36,27 +36,28 @@ type Scenario struct {
 
 // ChainParams of one generated chain.
 type ChainParams struct {
-	Scenario      *Scenario
-	Dir           string
-	Name          string
-	Seed          uint64
-	Rng           *hx.Rng
-	Epochs        int
-	Plain         bool // plain minimal preset (forks only)
-	Corrupt       int  // number of corrupted blocks to derive
-	Cancel        int  // number of steps to run the cancellation sweep on
-	Engine        int  // number of steps to run the engine verdict sweep on
-	Genesis       int  // number of adversarial genesis records
-	ForkBias      string
-	WideForks     bool
-	OddVectors    bool
-	CoverForks    [5]bool
-	CommitteeDrop bool // exact genesis active count on a committee-count threshold; slashings at slot 1 drop it inside phase0
-	Phase0Leak    bool // long phase0 with a leak and wrong-target votes (needs ForkBias phase0long)
-	LowBalances   bool // small registry (33-36 validators, sync committee of 32) whose balances are cut by a phase0 leak (needs Phase0Leak)
-	SyncSeat      bool // a sync-committee member exits, is fully withdrawn while seated and gets a top-up (period 4, short exit delays)
-	DepositFork   bool // side branch sharing the pubkey cache registers another key at the next validator index first
-	ZeroHashMerge int  // 1 = the merge block carries block_hash 0, 0 = random per chain, -1 = never
+	Scenario       *Scenario
+	Dir            string
+	Name           string
+	Seed           uint64
+	Rng            *hx.Rng
+	Epochs         int
+	Plain          bool // plain minimal preset (forks only)
+	Corrupt        int  // number of corrupted blocks to derive
+	Cancel         int  // number of steps to run the cancellation sweep on
+	Engine         int  // number of steps to run the engine verdict sweep on
+	Genesis        int  // number of adversarial genesis records
+	ForkBias       string
+	WideForks      bool
+	OddVectors     bool
+	CoverForks     [5]bool
+	CommitteeDrop  bool // exact genesis active count on a committee-count threshold; slashings at slot 1 drop it inside phase0
+	Phase0Leak     bool // long phase0 with a leak and wrong-target votes (needs ForkBias phase0long)
+	LowBalances    bool // small registry (33-36 validators, sync committee of 32) whose balances are cut by a phase0 leak (needs Phase0Leak)
+	SyncSeat       bool // a sync-committee member exits, is fully withdrawn while seated and gets a top-up (period 4, short exit delays)
+	ActivationTies bool // 16 alternating full/partial deposits at genesis, churn 2-3: a long activation queue with non-monotone eligibility epochs
+	DepositFork    bool // side branch sharing the pubkey cache registers another key at the next validator index first
+	ZeroHashMerge  int  // 1 = the merge block carries block_hash 0, 0 = random per chain, -1 = never
 	// Retry: regenerate with another sub-seed (at most 6 times) until this counter is non-zero
 	RetryUntil  string
 	GenesisOnly bool // directory with genesis records only (C13 stream)
@@ -137,6 +138,11 @@ func generateOnce(pr ChainParams) (res ChainResult) {
 	knobs.Phase0Leak = knobs.Phase0Leak || pr.Phase0Leak
 	knobs.LowBalances = knobs.LowBalances || pr.LowBalances
 	knobs.SyncSeat = knobs.SyncSeat || pr.SyncSeat
+	if pr.ActivationTies {
+		knobs.SmallChurn = true
+		knobs.FastEth1 = true
+		knobs.WideDeposits = true
+	}
 	sp := TinySpec(r.Fork(), knobs)
 	if err := CheckSpec(sp); err != nil {
 		res.Err = err
@@ -150,7 +156,7 @@ func generateOnce(pr ChainParams) (res ChainResult) {
 	c = &Chain{Name: pr.Name, Scenario: sc, Spec: sp, Rng: r.Fork(), Rec: rec, BLS: NewBLSTable(), Stats: NewStats(),
 		Planned: map[common.Epoch]*EpochPlan{}, Vars: map[string]int{}, depositors: map[common.BLSPubkey]GenVal{},
 		slashedSet: map[common.ValidatorIndex]bool{}, exitSet: map[common.ValidatorIndex]bool{}, activated: map[common.ValidatorIndex]bool{},
-		aggDone: map[common.Root]bool{}, Epochs: pr.Epochs, Absent: map[common.ValidatorIndex]bool{}, justified: map[common.Epoch]bool{}, modeOf: map[common.Epoch]string{}, wrongTargetIncluded: map[common.Epoch]int{}, zeroKeys: map[KeyNum]bool{}, zeroIndex: map[common.ValidatorIndex]bool{}, Protected: map[common.ValidatorIndex]bool{}}
+		aggDone: map[common.Root]bool{}, Epochs: pr.Epochs, Absent: map[common.ValidatorIndex]bool{}, justified: map[common.Epoch]bool{}, modeOf: map[common.Epoch]string{}, wrongTargetIncluded: map[common.Epoch]int{}, zeroKeys: map[KeyNum]bool{}, zeroIndex: map[common.ValidatorIndex]bool{}, Protected: map[common.ValidatorIndex]bool{}, partialKeys: map[KeyNum]bool{}}
 	c.OpRate = sc.Rates
 	c.CoverForks = pr.CoverForks
 	c.Phase0LeakMix = pr.Phase0Leak
@@ -212,6 +218,10 @@ func generateOnce(pr ChainParams) (res ChainResult) {
 	}
 	if pr.DepositFork {
 		c.DepositForkEpisode()
+	}
+	if pr.ActivationTies && !pr.Plain {
+		c.QueueAlternatingDeposits(16)
+		c.VoteAlways = true
 	}
 	if sc.Init != nil {
 		sc.Init(c)
